@@ -93,11 +93,6 @@ Definition wellformed (c : pcase) : bool :=
   let required := filter (fun p => match assoc p (c_defaults c) with Some _ => false | None => true end) (c_params c) in
   call_okb (c_params c) (c_pos c) (c_kw c) && completeb (c_params c) required (c_pos c) (c_kw c).
 
-(* F: no open variable is shared between two written arguments (K_predshare = C01-d otherwise) *)
-Definition shares_open_var (c : pcase) : bool :=
-  let kwargs := map (fun a => (0, a)) (c_pos c) ++ c_kw c in
-  existsb (fun b => negb (nodupb (open_vars b kwargs))) (cands (w_dom c) [] (c_pre c)).
-
 (* canonical form for the comparison with the Spec: the property does not fix the order of calls / rows *)
 Definition canon (o : sx) : sx :=
   match o with
@@ -107,4 +102,4 @@ Definition canon (o : sx) : sx :=
 
 Definition case_code_spec (c : pcase) (impl : sx) : Z :=
   if negb (wellformed c) then 200
-  else (if shares_open_var c then 100 else 0) + (if sx_eqb (canon impl) (canon (spec_outcome c)) then 0 else 3).
+  else if sx_eqb (canon impl) (canon (spec_outcome c)) then 0 else 3.
